@@ -5,7 +5,7 @@ FAMILIES = ['kill', 'fatal', 'latekill', 'resize']
 PER_FAMILY = (300, 6000)
 
 
-PROOF = S.pool_proof('C02', ['C02_loud_before_any_broken_future', 'C02_broken_pool_refuses', 'C02_death_fails_everything_loudly', 'C02_manager_gone_means_all_settled', 'C02_refuted_with_resize', 'C02_structure', 'C02_worker_never_leaves_silently'],
+PROOF = S.pool_proof('C02', ['C02_loud_before_any_broken_future', 'C02_broken_pool_refuses', 'C02_death_fails_everything_loudly', 'C02_manager_gone_means_all_settled', 'C02_unguarded_resize_refuted', 'C02_structure', 'C02_worker_never_leaves_silently'],
                     "detection itself (the sentinel of a dead worker becomes ready) is the OS's; the identity of the failed futures is Model/TokenFlow.v's; exit codes in the message are not modelled", extra_gen=['Worker'])
 
 
